@@ -46,13 +46,15 @@ not a known finding:
       (map-live-publications-filtered:client)
   m16 handleMapLivePhase: server tags filter not inherited on a direct-LIVE recovery join       -> C16M exit 1
       (map-live-publications-filtered:server, map-push-filtered:server)
-  m23 writePublication: offset-0 publications excluded by the filter are pushed (streamless)    -> C16M exit 1 (screened
-      with the replay only: map-push-filtered:client / :server)
+  m23 writePublication: offset-0 publications excluded by the filter are pushed (streamless)    -> C16M exit 1
+      (map-push-filtered:client / :server)
+  m25 handleSubRefresh: changed server tags filter does not unsubscribe the map subscription    -> C16M exit 1
+      (server-filter-change-not-invalidated)
 Not exit 1:
-  m3  live transition ignores the buffered publications -> exit 2 (DRIFT) for seed 1: the server-side position stays
-      behind the stream top, which the periodic position check ends with insufficient state (assumption above), so
-      the outcome is not a silent divergence; one behaviour of another seed ended silently diverged and was reported
-      (unexplained:per:fresh)
+  m3  live transition ignores the buffered publications -> exit 2: the probe reports a combination without a model variant
+      (INCONCLUSIVE); replaying anyway, the server-side position stays behind the stream top, which the periodic
+      position check ends with insufficient state, so most behaviours end told (DRIFT), one of 1500 ended silently
+      diverged (unexplained:per:fresh)
   m9  offset filter of later state pages dropped -> exit 2 (DRIFT): frames differ, the client still converges
   m20 live transition position taken from the publications seen instead of the stream top -> exit 2 (DRIFT, converges)
   m21 stream phase goes live one entry too early -> exit 2 (DRIFT, converges)
@@ -137,18 +139,18 @@ def _run(c, quick_cfgs, thorough_cfgs, sim, props, nq, nt, lag2=False):
 
 def c22(c):
     _run(c, ['quick_eph.cfg', 'quick_stream_@.cfg'], ['thorough_eph.cfg', 'thorough_rec_@.cfg', 'thorough_per_@.cfg'],
-         'sim_@.cfg', {'C22'}, 1000, 12000, lag2=True)
+         'sim_@.cfg', {'C22'}, 1000, 8000, lag2=True)
 
 
 def c16_map(c):
-    _run(c, ['quick_filt_@.cfg'], ['thorough_filt_@.cfg', 'thorough_eph.cfg'], 'sim_filt_@.cfg', {'C16', 'C16M'}, 800, 8000)
+    _run(c, ['quick_filt_@.cfg'], ['thorough_filt_@.cfg', 'thorough_eph.cfg'], 'sim_filt_@.cfg', {'C16', 'C16M'}, 800, 6000)
 
 
 CHECKS = {'C22': c22, 'C16M': c16_map}
 
 _note = ('Bounds: exhaustive 2 keys, <=3 environment operations on top of 0 or 2 initially present keys (quick: 2 operations, empty start; streamless maps 3 / 4), '
          'page size 1-2, stream size 1-2, live transition limit 3, three modes, fresh subscribe / recovery join by LIVE / by STREAM phase, no / client / server tags '
-         'filter, one resubscribe after an explicit end, periodic position check; replay: 1000 (quick) / 12000 (thorough) simulated behaviours with <=5 operations on '
+         'filter, one resubscribe after an explicit end, periodic position check; replay: 1000 (quick) / 8000 (thorough) simulated behaviours with <=5 operations on '
          '0-2 initial keys. Trusted: TLC, lib/tlaparse.py, harness projection / reference client / monitor code, overlay/mapsub (runs the sweep bodies and one '
          'connection tick). Redis map broker not covered.')
 META = {
